@@ -4,9 +4,13 @@
  *   $VH_LOG   : event log (appended):  ctor-begin|ctor-end|post-init|dtor|running <name>
  *   $VH_RUNNER: the module that, once the loop runs, logs "running" and ends the loop cleanly
  */
+#ifndef _GNU_SOURCE
+#define _GNU_SOURCE 1     /* dladdr */
+#endif
 #include "src/common.h"
 #include <fcntl.h>
 #include <unistd.h>
+#include <dlfcn.h>
 
 static char my_name[64];
 
@@ -16,6 +20,15 @@ static void vlog(const char *what)
     char buf[160];
     int fd, n;
     if (!path) return;
+    if (!my_name[0]) {
+        /* a module without a constructor is never told its name: take it from the file this copy was loaded from */
+        Dl_info di;
+        if (dladdr((void *)vlog, &di) && di.dli_fname) {
+            const char *b = strrchr(di.dli_fname, '/');
+            snprintf(my_name, sizeof(my_name), "%s", b ? b + 1 : di.dli_fname);
+            if (strrchr(my_name, '.')) *strrchr(my_name, '.') = '\0';
+        }
+    }
     fd = open(path, O_WRONLY | O_APPEND | O_CREAT, 0600);
     if (fd < 0) return;
     n = snprintf(buf, sizeof(buf), "%s %s\n", what, my_name);
@@ -23,6 +36,7 @@ static void vlog(const char *what)
     close(fd);
 }
 
+#ifndef VH_NO_CONSTRUCTOR
 static void stub_running(evutil_socket_t fd, short what, void *arg)
 {
     (void)fd; (void)what; (void)arg;
@@ -30,7 +44,9 @@ static void stub_running(evutil_socket_t fd, short what, void *arg)
     clean_exit = 1;
     event_base_loopbreak(ev_base);
 }
+#endif
 
+#ifndef VH_NO_CONSTRUCTOR    /* the third build is a module without the optional constructor (a leaf: it can declare nothing) */
 void module_constructor(const char name[])
 {
     const char *graph = getenv("VH_GRAPH"), *runner = getenv("VH_RUNNER");
@@ -63,6 +79,7 @@ void module_constructor(const char name[])
     }
     vlog("ctor-end");
 }
+#endif
 
 #ifndef VH_NO_POST_INIT      /* the second build of this file is a module without the optional post-init entry point */
 void module_post_init(struct module *self)
